@@ -9,6 +9,7 @@ of that site, written before the calls were part of the fact, was wrong). A new 
 and breaks `sites_classified`.
 -/
 import ThriftVerif.Facts.GenSites
+import ThriftVerif.Facts.GenCompile
 
 namespace ThriftVerif.Facts.ExpectSites
 open ThriftVerif.Facts
@@ -31,6 +32,14 @@ def classifiedPlugin : List (String × String × String × String) := [
 theorem sites_classified :
     GenSites.genMapRangeSites = classifiedGen.map (fun s => (s.1, s.2.1, s.2.2.1)) ∧
     GenSites.pluginMapRangeSites = classifiedPlugin.map (fun s => (s.1, s.2.1, s.2.2.1)) := by
+  decide
+
+/-- `Module.Walk` takes only the NAMES of a module's includes out of the map, sorts them, and visits the
+modules in that order: the order in which code generation numbers modules and services and lists the
+root services in the plugin request does not depend on map iteration (finding D93, repaired). A walk
+that ranges over the map's values again, or drops the sort, makes the fact differ. -/
+theorem walk_order_fixed :
+    GenCompile.walkOrder = ["range name, - over m.Includes", "sort.Strings(names)", "range _, name over names"] := by
   decide
 
 end ThriftVerif.Facts.ExpectSites
